@@ -71,7 +71,12 @@ let parse_ops (s : string) : dop list =
 
 let show_decode st (out, log) maxv =
   let a = if zle (alloc_bytes log) (eff_max maxv) then "A1" else "A0" in
-  let tail = Printf.sprintf ":h%s:b%s:%s" (zstr st.d_hdrcap) (zstr st.d_bufcap) a in
+  (* F<h><b>: a new header buffer / (in reuse mode) a new data buffer of non-zero size was allocated *)
+  let pos = function Z0 -> false | _ -> true in
+  let fh = List.exists (function AHdr n -> pos n | _ -> false) log in
+  let fb = st.d_reuse && List.exists (function ABuf n -> pos n | _ -> false) log in
+  let tail = Printf.sprintf ":h%s:b%s:%s:F%d%d" (zstr st.d_hdrcap) (zstr st.d_bufcap) a
+      (if fh then 1 else 0) (if fb then 1 else 0) in
   match out with
   | DMsg segs -> Printf.sprintf "msg:%d:%s:c1%s" (List.length segs) (render_segs segs) tail
   | DEof -> "eof" ^ tail
